@@ -284,17 +284,35 @@ func (app *App) addPrefixToRoute(prefix string, route *Route) *Route {
 		prettyPath = utils.TrimRight(prettyPath, '/')
 	}
 
+	// custom constraints registered on the mounted app keep applying to its routes
+	customConstraints := app.customConstraints
+	if own := routeCustomConstraints(route); len(own) > 0 {
+		customConstraints = append(own[:len(own):len(own)], app.customConstraints...)
+	}
+
 	route.Path = prefixedPath
 	route.path = RemoveEscapeChar(prettyPath)
-	route.routeParser = parseRoute(prettyPath, app.customConstraints...)
+	route.routeParser = parseRoute(prettyPath, customConstraints...)
 	// the prefix may bring parameters of its own
-	parsedRaw := parseRoute(prefixedPath, app.customConstraints...)
+	parsedRaw := parseRoute(prefixedPath, customConstraints...)
 	useRawConstraints(&route.routeParser, &parsedRaw)
 	route.Params = parsedRaw.params
 	route.root = route.path == "/"
 	route.star = prettyPath == "/*"
 
 	return route
+}
+
+// routeCustomConstraints returns the custom constraints the route's pattern was parsed with.
+func routeCustomConstraints(route *Route) []CustomConstraint {
+	for _, seg := range route.routeParser.segs {
+		for _, c := range seg.Constraints {
+			if len(c.customConstraints) > 0 {
+				return c.customConstraints
+			}
+		}
+	}
+	return nil
 }
 
 // useRawConstraints gives the parameters of the normalised (lower-cased) pattern the
